@@ -34,6 +34,26 @@ func (t *T) M(a int) int { Counter++; return -7000 - a - t.K }
 //go:noinline
 func (t *T) M2(a int) int { Counter++; return -7500 - a - t.K }
 
+// unexported methods (mocked through Struct(x).ExportMethod(name)) and their exported callers
+//
+//go:noinline
+func (t *T) um1(a int) int { Counter++; return -7200 - a - t.K }
+
+//go:noinline
+func (t *T) um2(a int) int { Counter++; return -7300 - a - t.K }
+
+//go:noinline
+func uf1(a int) int { Counter++; return -7400 - a }
+
+//go:noinline
+func CallUf1(a int) int { return uf1(a) }
+
+//go:noinline
+func (t *T) CallUm1(a int) int { return t.um1(a) }
+
+//go:noinline
+func (t *T) CallUm2(a int) int { return t.um2(a) }
+
 //go:noinline
 func (t T) V(a int) int { Counter++; return -8000 - a - t.K }
 
